@@ -109,6 +109,15 @@ pub trait StorageData: Sized {
     /// a result the new bytes should be initialized to `0_u8`.
     fn resize(&mut self, new_len: u64) -> Result<(), DbError>;
 
+    /// Discards everything written since the last [`flush()`](#method.flush)
+    /// restoring the content the storage had at that point, if the implementation
+    /// keeps the means to do so (e.g. a write ahead log). Returns `true` if the
+    /// content was restored and `false` if the implementation cannot do it. The
+    /// default implementation does nothing and returns `false`.
+    fn rollback(&mut self) -> Result<bool, DbError> {
+        Ok(false)
+    }
+
     /// Writes the `bytes` to the underlying storage at `pos`. The implementation
     /// must handle the case where the `pos + bytes.len()` exceeds the current
     /// [`len()`](#method.len).
@@ -166,6 +175,26 @@ impl<D: StorageData> Storage<D> {
 
     pub fn commit(&mut self, id: u64) -> Result<(), DbError> {
         self.end_transaction(id)
+    }
+
+    /// The id of the innermost open transaction (`0` if there is none).
+    pub fn current_transaction(&self) -> u64 {
+        self.transactions
+    }
+
+    /// Abandons all open transactions and restores the data and the records
+    /// to the state of the last finished outermost transaction. Returns `false`
+    /// (and changes nothing) if the underlying data cannot be rolled back.
+    pub fn rollback(&mut self) -> Result<bool, DbError> {
+        if !self.data.rollback()? {
+            return Ok(false);
+        }
+
+        self.transactions = 0;
+        self.records = StorageRecords::new();
+        self.read_records()?;
+
+        Ok(true)
     }
 
     pub fn copy(&self, name: &str) -> Result<Self, DbError> {
